@@ -4,6 +4,8 @@ from vlib import common as C
 from vlib.diff import Case, differential
 
 LEVEL = "proof"
+# C functions this check's models mirror (source-text fingerprints are recorded in the evidence, see translate/funchash.py)
+MODELLED_FUNCS = {'src/utils/iwstw.c': ['_worker_fn', 'iwstw_schedule', 'iwstw_schedule_only', 'iwstw_shutdown'], 'src/utils/iwtp.c': ['_worker_fn', 'iwtp_schedule', 'iwtp_shutdown']}
 MANIFEST = dict(
     level="proof",
     text=("Lean 4 theorems (invariants over all interleavings, by induction on scheduler steps, any number of client threads / "
